@@ -344,6 +344,36 @@ def build(tier="quick", seed=0):
 
         pack.add(Obligation(name, run, replay=lambda w: {"call": "c09_hostile", "args": w}, functions=FU))
 
+    # ---- allowed expressions are evaluated WITHOUT touching the record: list fields handed to the helpers keep their items, values handed to fields()
+    #      are not asked to do anything (a value held by the record is data: none of its methods is invoked)
+    CANARY_SRC = "class Canary:\n    def gettypename(self):\n        LOG.append('gettypename')\n        return 'string'\n    def lower(self):\n        LOG.append('lower')\n        return self\n"
+
+    def canary_module():
+        m = PModule("<c09 canary>")
+        m.g["LOG"] = []
+        it.block(ast.parse(CANARY_SRC).body, m.g, m)
+        return m
+
+    for e in ["field_equals(r, ['s'], r.tags)", "field_contains(r, ['s'], r.tags)", "field_equals(r, ['s'], r.tags, nocase=True)", "fields(r.c)", "fields(r.tags)", "lower(r.c) == 1", "str(fields(r.s)) == ''"]:
+        name = f"C09.pure[{e}]"
+
+        def run(tier, e=e, name=name):
+            def th():
+                cm = canary_module()
+                D = it.call(RD, ["c09/can", [("varint", "n"), ("string", "s"), ("string[]", "tags"), ("record", "c")]], {})
+                rec = it.call(D, [], {"n": 5, "s": "abc", "tags": ["Wheel", "ROOT", "adm"], "c": it.call(cm.g["Canary"], [], {})})
+                before = [it.unbase(x) for x in rec.attrs["tags"].base]
+                s = it.call(sel.g["Selector"], [e], {})
+                try:
+                    out = ("val", it.call(it.getattr_(s, "match"), [rec], {}))
+                except PyRaise as ex:
+                    out = ("raise", ex.cls_name)
+                return out[0], [it.unbase(x) for x in rec.attrs["tags"].base] == before, list(cm.g["LOG"])
+
+            return prove_paths(name, th, lambda p: (p.value[1] and not p.value[2], f"{e!r}: list field unchanged: {p.value[1]}; methods of a value held by the record that were invoked: {p.value[2]}"), lambda m, p: {"expr": e})
+
+        pack.add(Obligation(name, run, replay=lambda w: {"call": "c09_pure", "args": {"expr": w.get("expr")}}, functions=FU + ("flow.record.base:RecordDescriptor.getfields", "flow.record.selector:field_equals", "flow.record.selector:field_contains"), mode="allowed calls whose arguments are values held by the record"))
+
     # ---- canary / conformance / bounded -----------------------------------------------------------------------------------------------------
     def run_canary(tier):
         def th():
